@@ -77,6 +77,9 @@ type world struct {
 	// DA: real groth16 proofs for the three shards of the challenged item, and the deputy of the validator
 	proofs [][]byte
 	deputy string
+	// scenario context (follow-up batteries) and the response of the last successful call
+	over     *sdk.Context
+	lastResp any
 }
 
 func must(err error) {
@@ -285,13 +288,38 @@ func setup() *world {
 	return w
 }
 
-// callMethod runs one service method on a discarded cache context under recover.
+// stateCtx is the state the next call runs against: the committed state of the application, or
+// the scenario context of a follow-up battery (a cache context that keeps the writes of the
+// create / update message that started the scenario).
+func (w *world) stateCtx() sdk.Context {
+	if w.over != nil {
+		return *w.over
+	}
+	return w.h.Ctx()
+}
+
+// callMethod runs one service method under recover: on a discarded cache context of the committed
+// state, or - inside a scenario - on the scenario context itself (writes of successful calls stay).
 func (w *world) callMethod(m method, req any) (string, string) {
-	ctx, _ := w.h.Ctx().CacheContext()
-	return guard(func() error {
-		_, err := m.Call(ctx, req)
+	var ctx sdk.Context
+	var write func()
+	if w.over != nil {
+		ctx, write = w.over.CacheContext()
+	} else {
+		ctx, _ = w.h.Ctx().CacheContext()
+	}
+	w.lastResp = nil
+	cls, det := guard(func() error {
+		resp, err := m.Call(ctx, req)
+		if err == nil {
+			w.lastResp = resp
+		}
 		return err
 	})
+	if cls == clsOk && write != nil {
+		write()
+	}
+	return cls, det
 }
 
 // explore is a development aid: reflective fuzz of every method, panics grouped by message.
@@ -594,17 +622,46 @@ func Run(seed int64, n int, outDir string) error {
 			st.Nontriv("meta/" + tag + "/" + cls)
 		}
 	}
-	doHead := func(key string, req any, tag string) {
+	var doHead func(key string, req any, tag string)
+	lastCls := ""
+	doHead = func(key string, req any, tag string) {
 		m, ok := w.byKey[key]
 		if !ok {
 			panic("unknown method " + key)
 		}
 		term, info, cls := w.runHead(m, req, tag)
+		lastCls = cls
 		st.Count("call " + cls)
 		st.Count("method " + key)
 		add(term, info)
 		if cls == clsOk || (cls == clsErr && !strings.HasPrefix(tag, "field:Sender") && !strings.HasPrefix(tag, "field:Authority") && !strings.HasPrefix(tag, "reflect") && tag != "nilreq") {
 			st.Nontriv("call/" + key + "/" + tag + "/" + cls)
+		}
+	}
+
+	// doScenario runs a create / update message in a scenario context and, when it is accepted,
+	// the follow-up battery on the object / parameters it wrote, in that same context
+	doScenario := func(c headCase) {
+		m := w.byKey[c.key]
+		sctx, _ := w.h.Ctx().CacheContext()
+		w.over = &sctx
+		defer func() { w.over = nil }()
+		doHead(c.key, c.req, c.tag)
+		if lastCls != clsOk || !isCreateOrUpdate(m) {
+			return
+		}
+		resp := w.lastResp
+		st.Count("scenario " + c.key)
+		for _, f := range w.followUp(m, c.req, resp) {
+			doHead(f.key, f.req, f.tag)
+		}
+		if r, ok := resp.(*lptypes.MsgCreatePoolResponse); ok && r != nil {
+			for _, f := range w.poolTail(m, r.Id) {
+				doHead(f.key, f.req, f.tag)
+			}
+			for _, f := range w.poolDecreases(m, r.Id) {
+				doHead(f.key, f.req, f.tag)
+			}
 		}
 	}
 
@@ -627,6 +684,20 @@ func Run(seed int64, n int, outDir string) error {
 		doHead(c.key, c.req, c.tag)
 	}
 	anchors := w.anchors()
+	// the ends of every validated interval (constants collected from the sources) in every decimal
+	// place of every message; an accepted create / update is followed by its battery
+	consts := boundConstants()
+	st.Extra["bound_constants"] = len(consts)
+	for _, c := range w.boundProbes(boundGrid(consts)) {
+		doScenario(c)
+	}
+	for _, m := range w.ms {
+		if isCreateOrUpdate(m) {
+			if b := w.base(emit.NewRand(int64(len(m.Key()))+5), m.Key()); b != nil {
+				doScenario(headCase{m.Key(), b, "valid"})
+			}
+		}
+	}
 	view := w.view()
 	doLiq := func(base bool, amount sdkmath.Int, a, b sdkmath.LegacyDec) {
 		term, info, k := w.runLiq(base, amount, a, b)
